@@ -140,18 +140,20 @@ AckGroups(ack) == LET aa == AK1s(ack) IN [k \in 1..Len(aa) |-> AckGroup(ack, aa[
 (* ---- C05 ---- *)
 ValClass(v) == IF HasChar(v, TERM) THEN "TERM" ELSE IF HasChar(v, ELE) THEN "ELE" ELSE IF HasChar(v, SUB) THEN "SUB"
                ELSE IF HasChar(v, REP) THEN "REP" ELSE "plain"
+(* A value copied from the input is echoed as it is; a character that is a separator of the acknowledgement itself cannot be carried by an
+   element (C06: an echoed value never adds or splits elements or segments), so at such a position any stand-in that is not a separator is
+   right.  This holds for every echo: offending values, segment identifiers, group and set control numbers and identifiers. *)
+IsSepCh(c) == c \in {TERM, ELE, SUB, REP}
+Echoed(src, got) == \/ got = src
+                    \/ /\ Len(got) = Len(src)
+                       /\ \A i \in 1..Len(src) : LET a == SubSeq(src, i, i)  b == SubSeq(got, i, i) IN a = b \/ (IsSepCh(a) /\ ~IsSepCh(b))
 SegItemOk(rq, items) == \E it \in items : it.code = rq.code /\
                            (IF rq.code = "3" THEN it.pos \in {ToString(rq.pos), ToString(rq.pos - 1)}          \* a missing segment has no position of its own
-                            ELSE it.pos = ToString(rq.pos) /\ it.sid = rq.sid)
-SegItemWhy(rq, items) == IF \E it \in items : it.code = rq.code /\ it.sid = rq.sid THEN "segment_position" ELSE "absent"
-SameSeg(rq, it) == it.pos = ToString(rq.pos) /\ it.sid = rq.sid
+                            ELSE it.pos = ToString(rq.pos) /\ Echoed(rq.sid, it.sid))
+SegItemWhy(rq, items) == IF \E it \in items : it.code = rq.code /\ Echoed(rq.sid, it.sid) THEN "segment_position" ELSE "absent"
+SameSeg(rq, it) == it.pos = ToString(rq.pos) /\ Echoed(rq.sid, it.sid)
 EPosOk(rq, it) == rq.epos = 0 \/ (it.epos = ToString(rq.epos) /\ (rq.esub = 0 \/ it.esub = ToString(rq.esub)))
-(* the offending value is echoed as it is; a character that is a separator of the acknowledgement itself cannot be carried by an element
-   (C06: an echoed value never adds or splits elements or segments), so at such a position any stand-in that is not a separator is right *)
-IsSepCh(c) == c \in {TERM, ELE, SUB, REP}
-ValOk(rq, it) == \/ rq.val = "" \/ it.val = rq.val
-                 \/ /\ Len(it.val) = Len(rq.val)
-                    /\ \A i \in 1..Len(rq.val) : LET a == SubSeq(rq.val, i, i)  b == SubSeq(it.val, i, i) IN a = b \/ (IsSepCh(a) /\ ~IsSepCh(b))
+ValOk(rq, it) == rq.val = "" \/ Echoed(rq.val, it.val)
 EleItemOk(rq, items) == \E it \in items : SameSeg(rq, it) /\ it.code = rq.code /\ EPosOk(rq, it) /\ ValOk(rq, it)
 EleItemWhy(rq, items) ==
   IF \E it \in items : SameSeg(rq, it) /\ it.code = rq.code /\ EPosOk(rq, it) THEN "value"
@@ -185,8 +187,9 @@ C05Fails(h, rep, ack, verdict, ver, truncated) ==
       A == AckGroups(ack)
       written == ack # <<>>
       nest == HeadersNest(h)
-      gOk == Named(A) = Named(D)
-      sOk == gOk /\ \A i \in 1..Len(D) : NamedSets(A[i].sets) = NamedSets(D[i].sets)
+      gOk == Len(A) = Len(D) /\ \A i \in 1..Len(D) : Echoed(D[i].fic, A[i].fic) /\ Echoed(D[i].id, A[i].id)
+      sOk == gOk /\ \A i \in 1..Len(D) : Len(A[i].sets) = Len(D[i].sets) /\
+                    \A j \in 1..Len(D[i].sets) : Echoed(D[i].sets[j].tsid, A[i].sets[j].tsid) /\ Echoed(D[i].sets[j].id, A[i].sets[j].id)
       GI == 1..Len(D)
       SI == {<<i, j>> \in (1..Len(D)) \X (1..30) : j <= Len(D[i].sets)}
       badSet == {p \in SI : ~CodeOk(D[p[1]].sets[p[2]].want, A[p[1]].sets[p[2]].code)}
@@ -238,7 +241,8 @@ C05Fails(h, rep, ack, verdict, ver, truncated) ==
 Schema(id, ver) ==
   LET v5 == ver = "5010" IN
   CASE id = "ISA" -> <<16, 16, 1>> [] id = "GS" -> <<8, 8, 1>> [] id = "ST" -> IF v5 THEN <<3, 3, 1>> ELSE <<2, 2, 1>>
-    [] id = "AK1" -> IF v5 THEN <<2, 3, 1>> ELSE <<2, 2, 1>> [] id = "AK2" -> IF v5 THEN <<2, 3, 1>> ELSE <<2, 2, 1>>
+    \* (AK102 / AK202 echo the received control number: a group or set that has none is named with an empty, i.e. trimmed, one)
+    [] id = "AK1" -> IF v5 THEN <<1, 3, 1>> ELSE <<1, 2, 1>> [] id = "AK2" -> IF v5 THEN <<1, 3, 1>> ELSE <<1, 2, 1>>
     [] id \in {"AK3", "IK3"} -> <<2, 4, 1>> [] id \in {"AK4", "IK4"} -> <<3, 4, IF v5 THEN 3 ELSE 2>>
     [] id \in {"AK5", "IK5"} -> <<1, 6, 1>> [] id = "AK9" -> <<4, 9, 1>> [] id \in {"SE", "GE", "IEA"} -> <<2, 2, 1>>
     [] id = "TA1" -> <<4, 5, 1>> [] id = "CTX" -> <<1, 6, 9>> [] OTHER -> <<0, 0, 0>>
